@@ -348,6 +348,17 @@ def cases(ctx):
         for axis in ('x', 'y', 'z'):
             out.append(build_flat_case(rng, g, axis, rng.uniform(-math.pi, math.pi), rng.choice([1.5, 4.0]), rod=(kf % 3 == 0)))
     out += extra_families(ctx, rng, g, ctx.scale(2, 12), ctx.scale(2, 15))
+    # histories: one or two earlier alignments of the SAME object (same selection, other axes / planes) before the call that is
+    # examined; the principal direction meant by the property is that of the coordinates the object holds at the time of the call
+    # (the model starts from the table observed after the prelude)
+    nth = 0
+    for c in out:
+        if c.get('op') == 'align' and c.get('source') == 'object' and not c.get('export'):
+            nth += 1
+            if nth % 3 == 0:
+                pool = ['xy', 'xz', 'yz'] if c['func'] == 'align_interface' else ['x', 'y', 'z']
+                c['prelude'] = [rng.choice(pool) for _ in range(rng.choice([1, 1, 2]))]
+                c['family'] = c.get('family', '') + '+history'
     out.append({'op': 'align_axis', 'axis': 'w', 'lines': build_align_case(rng, g, 'x', 'all', False, 'object', 1.0, 1.0, 3.0)['lines'], 'family': 'bad-axis'})
     return out
 
@@ -417,6 +428,14 @@ def impl_inner(ctx, c):
     else:
         src = cls(c['lines'])
         ref = src
+        for a in c.get('prelude', []):
+            try:
+                if c['func'] == 'align':
+                    AL.align(src, axis=a, export=False, **c['kwargs'])
+                else:
+                    AL.align_interface(src, plane=a, export=False, **c['kwargs'])
+            except Exception:
+                pass
     before = ref.get('*')
     c['obs'] = {'db': table_json(before)}
     files0 = set(os.listdir('.'))
